@@ -14,7 +14,8 @@ a statement about every REACHABLE state of the system `Uflow.Sys` (sender `PSend
 receiver `PRecv`, `Lemmas/SysDefs.lean`), which is proved here:
 
 * **no reachable state is a permanent stall** — from every state reachable by ANY schedule (arbitrary
-  finite prefix of loss, duplication, reordering, stale acknowledgements), ONE more round in which the
+  finite prefix of loss, duplication, reordering, stale acknowledgements, sync frames: the `sync` /
+  `resync` steps of `Sys`), ONE more round in which the
   network lets through every datagram emitted so far (`redeliverAll`; what the sender's resend timers
   achieve for the fragments of unacknowledged Persistent / Reliable packets, C12) followed by one
   `receive` call delivers every emitted Reliable packet byte-exact and moves the receive window base
@@ -27,6 +28,9 @@ receiver `PRecv`, `Lemmas/SysDefs.lean`), which is proved here:
 the bound of ONE round. What the round delivers is the datagrams of `net`, i.e. of all packets that
 were given a sequence id (`emit_packet`); packets still in the send queue are outside the statement
 (moving them into the window is the flush / credit loop of the half connection, C13 / C14).
+
+`C02_sys_resync_passes_no_reliable`: a `resync` step never moves the window base past a Reliable
+packet (sync values are recorded under the sender-side guard `SyncOk`).
 
 New invariants (all proved for every reachable state, `Sys.linv_run`): `window_ready` is live (if a
 received entry passes the test of the window pass, the flag is set — with the honest leads of this
@@ -56,7 +60,8 @@ def redeliverAll (s : Sys) : List SOp := (List.range s.net.length).map SOp.deliv
 (`Uflow/Lemmas/SysLiveRun.lean`). -/
 theorem C02_sys_reach_live (w k b a m : Nat) (hw : w ≤ 2^16) (hk : k ≤ 19) (hb : b < 2^20) (ops : List SOp)
     (s' : Sys) (h : runS (initS w (2^k) b a m) ops = .ok s') : LInv (2^k) s' :=
-  linv_run (wOk_pow k hk) hw ops (sinv_init w (2^k) b a m (Nat.two_pow_pos k) hb) (linv_init w (2^k) b a m) h
+  linv_run (wOk_pow k hk) hw ops (sinv_init w (2^k) b a m (Nat.two_pow_pos k) hb) (pinv_init w (2^k) b a m)
+    (linv_init w (2^k) b a m) h
 
 /-- **Deliverability: no reachable state is a permanent stall.** Let `s` be ANY state reachable from
 `PacketSender::new(w, b, a)` / `PacketReceiver::new(2^k, b, m)` by any list of steps (enqueue, emit,
@@ -107,6 +112,52 @@ theorem C02_sys_deliverable (w k b a m : Nat) (hwk : w ≤ 2^k) (hw : w ≤ 2^16
     rcases g9 j x hx hj with h1 | h2
     · exact Or.inl (key j x hx h1)
     · exact Or.inr h2
+
+/-- **A `resync` step passes no Reliable packet at all** (`w ≤ 2^16`). By
+`C02_sys_resync_keeps_reliable` a Reliable packet a `resync` step passes is already in the log; by the
+liveness invariant (`LInv.lg`) a logged packet of the current window still has its entry flag, and
+`resynchronize` stops at the first slot with an entry flag. So if a `resync` step moves the receive
+window base from `s.rcv.adv` to `s'.rcv.adv`, no Reliable packet was emitted at a position in between:
+the step only skips Unreliable / TimeSensitive / Persistent packets that have not been (completely)
+received — what sync frames are for ("preventing the send/receive windows from desynchronizing in the
+event that many unreliable packets are dropped"). -/
+theorem C02_sys_resync_passes_no_reliable (w k b a m : Nat) (hw : w ≤ 2^16) (hk : k ≤ 19) (hb : b < 2^20)
+    (ops : List SOp) (s : Sys) (h : runS (initS w (2^k) b a m) ops = .ok s) (s' : Sys) (kk : Nat)
+    (hs : stepS s (.resync kk) = .ok s') (j : Nat) (x : Emitted) (hx : s.hist.emitted[j]? = some x)
+    (h1 : s.rcv.adv ≤ j) (h2 : j < s'.rcv.adv) : x.mode ≠ .reliable := by
+  intro hrel
+  obtain ⟨e, he, hu⟩ := C02_sys_resync_keeps_reliable w k b a m hw hk hb ops s h s' kk hs j x hx hrel h1 h2
+  have hinv := C01_sys_reach w k b a m (by omega) hk hb ops s h
+  have hl := C02_sys_reach_live w k b a m hw hk hb ops s h
+  have hW := wOk_pow k hk
+  have hen := hl.lg e he (by omega)
+  simp only [stepS] at hs
+  split at hs
+  · cases hs; omega
+  · rename_i n id hk'
+    split at hs
+    · rename_i hfresh
+      rw [stepT_resync] at hs
+      cases hr : resynchronize s.rcv.st id with
+      | error t => rw [hr] at hs; cases hs
+      | ok st' =>
+        rw [hr, bindR_ok, bindR_ok] at hs
+        cases hs
+        have h2' : j < s.rcv.adv + pidSub st'.baseId s.rcv.st.baseId := h2
+        rcases resync_cases (by omega) hinv n id (List.mem_of_getElem? hk') hfresh st' hr with
+          rfl | ⟨nb, hnb, hle, hδ, hadv, hno⟩
+        · rw [pidSub_self] at h2'; omega
+        · have F := advanceWindow_facts hW hinv.rcv.inv hinv.rcv.ord nb hnb hδ hadv
+          rw [F.base] at h2'
+          have hseq := hinv.rcv.gi.gseq e he
+          have hWle := hW.le
+          have hoff : pidSub e.seq s.rcv.st.baseId = e.uid - s.rcv.adv := by
+            rw [hseq, hinv.rcv.gi.gbase]
+            exact seq_off b s.rcv.adv e.uid (by omega) (by omega)
+          have := hno e.seq (by rw [hseq]; exact Nat.mod_lt _ (by decide)) (by rw [hoff]; omega)
+          rw [this] at hen
+          cases hen
+    · cases hs; omega
 
 /-- Payload bytes of the packets waiting in the send queue (`qBytes`, C20). -/
 def queuedBytes (s : Sys) : Nat := (s.snd.queue.map (·.data.length)).sum
